@@ -262,6 +262,11 @@ class Aligner:
             # a mode switch of the primitive codec used on one side only (read_integer(signed=False) against a plain write_integer)
             ok = False
             wconv, rconv = f"{wconv}({w.modes})", f"{rconv}({r.modes})"
+        if ok and wconv == "identity" and r.ukind == "enumerated" and r.enum_cls and self.valueless_pseudo_members(r.enum_cls):
+            # the decoder can produce a member that _missing_ allocates with int.__new__(cls) - as an int it is 0; only its
+            # .value carries the number that was received, so writing the member itself does not write that number back
+            ok = False
+            wconv, rconv = "identity (the member as an int)", f"{short(r.enum_cls)}(n), whose _missing_ members have the int value 0"
         run.ob("W6-inverse-conversion", ok, dict(label, writer_conv=wconv, reader_conv=rconv))
         if not ok:
             self.fail("W6-inverse-conversion", cls, f"{w.src.path if w.src else ''}: {wconv} vs {rconv}", f"{short(cls)}: `{w.src.path if w.src else ''}` is written with conversion {wconv} but read with {rconv}", w)
@@ -275,6 +280,15 @@ class Aligner:
                 self.fail("W7-enum-class", cls, f"{fpath}: {ann} vs {short(r.enum_cls)}", f"{short(cls)}: `{fpath}` is annotated {ann} but read as {short(r.enum_cls)}", r)
         if opt is not None:
             self.default_check(cls, opt, r, res, r)
+
+    def valueless_pseudo_members(self, enum_q: str) -> bool:
+        m = self.ex.m
+        if enum_q not in m.classes:
+            return False
+        ms = m.find_method(enum_q, "_missing_")
+        if ms is None:
+            return False
+        return any(isinstance(c, ast.Call) and norm(c.func) == "int.__new__" and len(c.args) == 1 and not c.keywords for c in ast.walk(ms.node))
 
     def field_annotation(self, cls: str, fpath: str) -> Optional[str]:
         cur = cls
